@@ -172,9 +172,12 @@ def encValue (env : Env) (f : Field) : EncKind → Except EncErr Int
      | .none => revLookup env e f.value
      | .int z => pure z
      | _ => throw .type_)
-  | .date =>
+  | .date bits =>
     (match f.raw with
-     | .none => (match f.value with | .date d => pure d | _ => throw .type_)
+     | .none => (match f.value with
+        | .date d => pure d
+        | .none => pure (((2 ^ bits : Nat) : Int) - 1)      -- encode_date(None, bits): "not available"
+        | _ => throw .type_)
      | .int z => pure z
      | _ => throw .type_)
   | .time res bits signed =>
